@@ -409,7 +409,8 @@ func (m *urlModule) createURLPrototype() *goja.Object {
 		s = strings.ToLower(s)
 		if isSpecialProtocol(u.url.Scheme) == isSpecialProtocol(s) {
 			// a scheme that requires a host is only taken if the present host is valid for it (file: may have none)
-			if _, err := url.ParseRequestURI(s + "://" + u.url.Host); err == nil &&
+			// (a value such as "/x" parses too - as a path without a scheme - hence the comparison)
+			if p, err := url.ParseRequestURI(s + "://" + u.url.Host); err == nil && p.Scheme == s &&
 				(!isSpecialNetProtocol(s) || (u.url.Opaque == "" && validHost(s, u.url.Host))) {
 				u.url.Scheme = s
 				m.fixURL(u.url)
